@@ -342,6 +342,7 @@ func parsePrimaryExpression
   recgroup exprparse
   decreases 16 * len(tokens) + 1
   ensures success-gives-a-node-and-consumes-input: result2 == nil ==> result0 != nil && len(result1) < len(tokens)
+  before parseCaseExpression a-case-expression-is-an-operand-like-any-other-it-is-parsed-from-its-own-keyword-on: strings.ToUpper(tokens[0]) == "CASE" && $arg0 == tokens
 
 func parseUnaryExpression
   props C06
